@@ -156,15 +156,31 @@ func (its *WiredDatatype) checkOptionAndError(ppp *model.PushPullPack) errors.Or
 }
 
 func (its *WiredDatatype) excludeDuplicatedOperations(ppp *model.PushPullPack) {
-	pulled := its.calculatePullingOperations(ppp.CheckPoint)
-	if len(ppp.Operations) > pulled {
-		// for example, if len(ppp.Operations) == 5: o_1 o_2 o_3 o_4 o_5 are received, and
-		// if `pulled` == 3, o_1 and o_2 were already received,
-		// o_1 and o_2 should be skipped
-		skip := len(ppp.Operations) - pulled
-		ppp.Operations = ppp.Operations[skip:]
-		its.L().Infof("skip %d operations", skip)
+	if ppp.GetPushPullPackOption().HasSubscribeBit() {
+		return // the datatype has just been reset: everything in the pack is new
 	}
+	// `pulled` is the number of operations of other clients this replica has not applied yet.
+	// The pack can hold more than that: operations of this client that were stored by an earlier
+	// exchange whose response never arrived (they can sit anywhere in the pack, not only in
+	// front), and operations of others that an earlier response already delivered (those are in
+	// front). Own operations are recognised by their client id, the rest by counting from the end.
+	pulled := its.calculatePullingOperations(ppp.CheckPoint)
+	if pulled < 0 {
+		pulled = 0 // a response older than what has been applied already
+	}
+	others := make([]*model.Operation, 0, len(ppp.Operations))
+	for _, op := range ppp.Operations {
+		if op.GetID().GetCUID() != its.opID.CUID {
+			others = append(others, op)
+		}
+	}
+	if skip := len(others) - pulled; skip > 0 {
+		others = others[skip:]
+	}
+	if len(others) != len(ppp.Operations) {
+		its.L().Infof("skip %d operations", len(ppp.Operations)-len(others))
+	}
+	ppp.Operations = others
 }
 
 func (its *WiredDatatype) syncCheckPoint(newCheckPoint *model.CheckPoint) {
